@@ -8,6 +8,7 @@
 import Mfi.Model.Admin
 import Mfi.Lemmas.AccL
 import Mfi.Lemmas.ResL
+import Mfi.Props.C10
 namespace Mfi.Props.C12
 open Mfi Mfi.Admin Mfi.Gen
 
@@ -244,5 +245,13 @@ theorem withdraw_window (xs : List (Int × Int)) : ∀ (s : WState), s.w.dailyLi
 
 /-- "within a day" -/
 theorem a_day_is_86400_seconds : Mfi.Gen.DAILY_RESET_INTERVAL = 86400 := by decide
+
+/-- **a forced deleverage cannot leave the account less healthy**: an accepted `end_deleverage` means the
+    maintenance health of the portfolio at the end is at least the health recorded when the bracket started
+    (model Risk.endDeleverage, diffed against the real instruction; proof: C10.end_receivership_spec) -/
+theorem deleverage_cannot_worsen_health {pre : Mfi.Risk.PreCache} {ps : List Mfi.Risk.Pos} {seized repaid : Int}
+    (h : Mfi.Risk.endDeleverage pre ps = .ok (seized, repaid)) :
+    ∃ cm, Mfi.Risk.components ps .maint = .ok cm ∧ pre.aMaint - pre.lMaint ≤ cm.assets - cm.liabs :=
+  Mfi.Props.C10.end_deleverage_spec h
 
 end Mfi.Props.C12
